@@ -136,9 +136,13 @@ class minuit_optimizer(OptimizerMixin):
         unc = None
         if minimizer.valid:
             # Extra call to hesse() after migrad() is always needed for good error estimates. If you pass a user-provided gradient to MINUIT, convergence is faster.
-            minimizer.hesse()
-            hess_inv = minimizer.covariance
-            corr = hess_inv.correlation()
+            # With no parameter left free (e.g. a fixed-POI fit of a model whose
+            # only parameter is the POI) there is nothing for hesse() to do and no
+            # covariance matrix exists.
+            if minimizer.nfit > 0:
+                minimizer.hesse()
+                hess_inv = minimizer.covariance
+                corr = hess_inv.correlation()
             unc = minimizer.errors
 
         return scipy.optimize.OptimizeResult(
